@@ -166,7 +166,7 @@ REG["C16"] = {
 _REFINE = (" + Refine.tla / MC_Refine.tla (refinement ratios 2 / 4 / mixed as data: a level's refinement is the PRODUCT of the ratios below it; "
            "HierarchyOk, resolution-rule and index-rule mutants refuted) with every emitted (ratios, level-0 size, limit, query level) replayed on a "
            "nested hierarchy written with those ratios")
-for _p in ("C01", "C02", "C03", "C07", "C08", "C09", "C10", "C19", "C20"):
+for _p in ("C01", "C02", "C03", "C07", "C08", "C09", "C10", "C16", "C19", "C20"):
     REG[_p]["technique"] += _REFINE
 REG["C10"]["technique"] += (" + Descriptors.tla (one handle per file whatever the number of boxes, read errors propagate) bound by crowd runs: hundreds of "
                             "boxes in one file under a lowered RLIMIT_NOFILE")
